@@ -54,11 +54,11 @@ type c16OptStream struct {
 }
 
 type c16OptRun struct {
-	rep    *kit.Report
-	c      *vfCluster
-	srv    *Server
-	cfg    string
-	sidx   int
+	rep  *kit.Report
+	c    *vfCluster
+	srv  *Server
+	cfg  string
+	sidx int
 }
 
 func (r *c16OptRun) witness(st *c16OptStream, extra map[string]any) map[string]any {
@@ -111,31 +111,46 @@ func (r *c16OptRun) readback(st *c16OptStream, phase string) {
 		r.inconc(st, "partition object not found")
 		return
 	}
-	recs, err := vfReadLog(p.log, 0, true)
-	// the cleaner (compaction, 50 ms interval) may replace a segment under
-	// the reader: read again, a logical retry and not a verdict
-	for try := 0; err != nil && try < 40; try++ {
+	n := int64(len(st.tags))
+	// (1) the end of the log, read from the log itself (no reader involved)
+	if newest := p.log.NewestOffset(); newest != n-1 {
+		r.fail(st, "log-mismatch", fmt.Sprintf("after the %s phase the newest offset of %s (options %v) is %d, the accepted publishes were %d", phase, st.name, st.opts, newest, n),
+			map[string]any{"accepted_keys": st.tags})
+		return
+	}
+	// (2) what a reader delivers: every record must be the accepted publish of
+	// its offset.  The cleaner (compaction on 256-byte segments every 50 ms)
+	// may swap a segment under the reader, which ends the read early
+	// (vfReadLog stops at the first read error): an incomplete read is read
+	// again and is never a verdict of this property.
+	var recs []vfLogRec
+	var err error
+	for try := 0; try < 60; try++ {
+		recs, err = vfReadLog(p.log, 0, true)
+		if err == nil && int64(len(recs)) >= n {
+			break
+		}
 		r.rep.Count("log_readback_retries", 1)
 		time.Sleep(25 * time.Millisecond)
-		recs, err = vfReadLog(p.log, 0, true)
-	}
-	if err != nil {
-		r.inconc(st, "reading the log: "+err.Error())
-		return
 	}
 	r.rep.Count("log_readbacks", 1)
 	r.rep.Count("log_records_compared", int64(len(recs)))
-	bad := len(recs) != len(st.tags)
-	for i := 0; !bad && i < len(recs); i++ {
-		bad = recs[i].Offset != int64(i) || string(recs[i].Key) != st.tags[i]
-	}
-	if bad {
-		var got []string
-		for _, x := range recs {
-			got = append(got, fmt.Sprintf("%d=%s", x.Offset, x.Key))
+	last := int64(-1)
+	for _, x := range recs {
+		if x.Offset <= last || x.Offset >= n || string(x.Key) != st.tags[x.Offset] {
+			var got []string
+			for _, y := range recs {
+				got = append(got, fmt.Sprintf("%d=%s", y.Offset, y.Key))
+			}
+			r.fail(st, "log-mismatch", fmt.Sprintf("after the %s phase the log of %s (options %v) holds key %q at offset %d (previous record: offset %d); %d publishes were accepted", phase, st.name, st.opts, x.Key, x.Offset, last, n),
+				map[string]any{"log_keys": got, "accepted_keys": st.tags})
+			return
 		}
-		r.fail(st, "log-mismatch", fmt.Sprintf("after the %s phase the log of %s (options %v) holds %d messages, the accepted publishes were %d", phase, st.name, st.opts, len(recs), len(st.tags)),
-			map[string]any{"log_keys": got, "accepted_keys": st.tags})
+		last = x.Offset
+	}
+	if int64(len(recs)) != n {
+		r.rep.Count("log_readbacks_incomplete", 1)
+		r.rep.Inconc(fmt.Sprintf("server %d stream %s %v: after the %s phase a reader delivered %d of %d messages (newest offset is right, every delivered record is right; read error: %v)", r.sidx, st.name, st.opts, phase, len(recs), n, err))
 	}
 }
 
@@ -380,10 +395,7 @@ func TestVerifC16Options(t *testing.T) {
 				st.class = "plain"
 			}
 			if enc {
-				st.class = "encryption" // one class for everything that involves sealing
-				if len(fam) > 1 {
-					st.class = "encryption+others"
-				}
+				st.class = "encryption" // one class for everything that involves sealing; the full option list is in the witness
 			}
 			if err := c.CreateStream(req); err != nil {
 				rep.Inconc(fmt.Sprintf("create stream %s %v: %v", st.name, st.opts, err))
